@@ -445,6 +445,7 @@ func runC04(w *World, r *Report) {
 	shareRule(w, r, "C04.no-data-value-both-paradigms", "the 'no data' value of a node whose input is assembled from mappings is the map the assembling converter expects, in the value form and in the stream form alike (Invoke returns, Stream / Collect / Transform must not fail on a differently typed empty stream)", 1, "C02", "C02.zero-input-fits-handlers")
 	shareRule(w, r, "C04.chunk-tolerance-at-every-depth", "a map key a chunk lacks is tolerated in the chunk-wise paradigms at every element of the source path, as the concatenated value has it under Invoke", 1, "C15", "C15.stream-key-tolerance")
 	shareRule(w, r, "C04.twice-reached-successor-keeps-its-copy", "a successor reached twice from one node in a step keeps the stream copy it already has: the spare copy is closed and NOT stored over the good one (values have no close, so Invoke would not notice)", 1, "C19", "C19.no-dropped-copy")
+	shareRule(w, r, "C04.every-slot-of-a-chunk-is-taken", "the concat function of message lists takes every non-nil slot of every chunk (its loops are left only when exhausted): a chunk carrying messages in two slots must not lose the second when a stream-only producer is invoked or an invoke-only node follows it", 1, "C14", "C14.visits-all")
 
 	// ---- role-uniform (generalises in-out-wiring to every struct and function of the module)
 	r.Rule("C04.helper-slots-typed-by-their-side", "newGenericHelper[I, O] fills every input* slot of the helper (both halves of a handler pair included) from an instance over I and every output* slot from an instance over O: a stream half instantiated over the other parameter keeps Invoke right and makes the stream paradigms re-pack an interface-typed output as StreamReader[I]", 10)
